@@ -189,6 +189,17 @@ func main() {
 			}
 		}
 	}
+	// a contract key whose package is not part of the program (typically an import alias that is not declared in
+	// that spec file) would silently never be used
+	loaded := map[string]bool{}
+	for _, p := range prog.AllPackages() {
+		loaded[p.Pkg.Path()] = true
+	}
+	for k, c := range eng.specs.Contracts {
+		if pk := pkgOfKey(k); pk != "" && !loaded[pk] {
+			eng.errorf("contract for %s (%s:%d): package %q is not part of the program (undeclared import alias?)", k, c.File, c.Line, pk)
+		}
+	}
 	if !*lemmasOnly {
 		// every requested function must be there and under contract: a check whose function or contract has
 		// disappeared must not pass by proving nothing about it
@@ -352,6 +363,32 @@ func main() {
 
 func indent(s string) string {
 	return "    " + strings.ReplaceAll(strings.TrimSpace(s), "\n", "\n    ")
+}
+
+// pkgOfKey extracts the package path from a contract key such as "(*database/sql.DB).Begin@mode",
+// "fmt.Errorf", "field:pkg.T.f" or "pkg.F$1".
+func pkgOfKey(k string) string {
+	if i := strings.Index(k, "@"); i >= 0 {
+		k = k[:i]
+	}
+	k = strings.TrimPrefix(k, "field:")
+	if strings.HasPrefix(k, "(") {
+		j := strings.Index(k, ")")
+		if j < 0 {
+			return ""
+		}
+		k = strings.TrimPrefix(k[1:j], "*")
+		if i := strings.LastIndex(k, "."); i >= 0 {
+			return k[:i]
+		}
+		return ""
+	}
+	// pkg/path.Name[.field][$n]: the package path ends at the first '.' after the last '/'
+	sl := strings.LastIndex(k, "/")
+	if i := strings.Index(k[sl+1:], "."); i >= 0 {
+		return k[:sl+1+i]
+	}
+	return ""
 }
 
 // resolveSentinels maps sentinel names to global heap keys.
